@@ -81,6 +81,10 @@ def callThisClash : Node → Bool
   | .call (.member (.member o _ _) (.pname _ _) _) (.arg none a :: _) _ => o.span == a.span || o.span.isDummy
   | _ => false
 
+def isArgN : Node → Bool
+  | .arg .. => true
+  | _ => false
+
 /-- local well-formedness of one source node -/
 def srcNode : Node → Bool
   | .ident (.temp _) _ => false
@@ -89,7 +93,8 @@ def srcNode : Node → Bool
   | .paren e sp => !sp.isDummy && e.span != sp
   | .cond _ _ _ sp => !sp.isDummy
   | .arrow _ body _ _ => !looksInjectedBody body
-  | .call c as sp => !callThisClash (.call c as sp)
+  | .call c as sp => !callThisClash (.call c as sp) && as.all isArgN
+  | .optCall _ as _ => as.all isArgN
   | .array _ sp => !sp.isDummy
   | _ => true
 
